@@ -42,7 +42,7 @@ f32 values are u32 bit patterns, i16 coordinates u16 bit patterns.  The binary32
 reader (`plate_size as f32 * (c as f32 + 0.5)`) and of the writer (`((p / 128.0) - 0.5) as i16`) is
 modelled bit-exactly (`Model/F32Arith.lean`); that it lands exactly on / comes back exactly from the
 grid value `128c + 64` is proved for **all 65 536 coordinates** by bit-blasting
-(`Proofs/TeraFloat.lean`, `bv_decide`, one rounding per lemma). -/
+(`Proofs/TeraFloat.lean`, `bv_decide (timeout := 300)`, one rounding per lemma). -/
 
 /-- the reader returns, for every stored position in file order, the plate computed by
 `plate_size as f32 * (coord as f32 + 0.5)` and the file name `%04d.mdl` of its index — any header
